@@ -131,17 +131,17 @@ func inherited(c *Ctx, own []*RuleResult, pids ...string) []*RuleResult {
 
 func init() {
 	properties["C01"] = propDef{run: func(c *Ctx) *PropertyRun {
-		return pr("other", "Decided: (R12b–e) the cached size of every tree moves only with the structure — replace-on-equal paths of Put touch neither counter nor links and report 'nothing added', decrements are guarded by 'found', increments travel with allocate-and-link; (R11) every child-link store has its parent-link twin; (R10) the red-black rotations and fix-up arms are mirror images; (R15) LinkedHashMap table and order list gain/lose a key on the same paths; (R16) BidiMap pairing; (R24) HashMap is the Go map; (R20) TreeMap delegates each operation to the same-named tree operation; (R13a) every comparator-driven descent (Put, Get, Remove, lookup of all three trees) branches on the comparator's full int result with one orientation — lookups and insertions take the same way down (a narrowed or re-oriented verdict in one of them loses keys); (R32) the B-tree's hand-written slice surgery keeps its indices consistent: a shift by one opens a gap that is filled at that index after growing by one, or closes one before truncating by one, and a split partitions entries into [:k] / [k+1:] with entry k moving up and children divided at k+1; (R34) rotations preserve the in-order sequence of the subtree they re-hang (symbolic-heap replay of every path; catches mistakes that are symmetric in both directions, which the mirror rule cannot see); (R28) Remove replaces a node by one of its children only when the other is known nil, and a node with two children takes both key and value of its in-order neighbour, which is then the node unlinked (red-black Remove, AVL remove/removeMin); (R36) B-tree descents hop through the first or last child of the node they are on (or its search result) and delete replaces an internal entry by the last entry of the right-most leaf to its left, removing exactly that entry there. Not decided: that a lookup after an arbitrary history finds the last value — the correctness of the red-black / AVL / B-tree algorithms themselves (which case fires for which shape); a recolouring mistake that keeps links, counters and mirror arms consistent is not detected."+notBehaviour,
+		return pr("other", "Decided: (R12b–e) the cached size of every tree moves only with the structure — replace-on-equal paths of Put touch neither counter nor links and report 'nothing added', decrements are guarded by 'found', increments travel with allocate-and-link; (R11) every child-link store has its parent-link twin; (R10) the red-black rotations and fix-up arms are mirror images; (R15) LinkedHashMap table and order list gain/lose a key on the same paths; (R16) BidiMap pairing; (R24) HashMap is the Go map; (R20) TreeMap delegates each operation to the same-named tree operation; (R13a) every comparator-driven descent (Put, Get, Remove, lookup of all three trees) branches on the comparator's full int result with one orientation — lookups and insertions take the same way down (a narrowed or re-oriented verdict in one of them loses keys); (R32) the B-tree's hand-written slice surgery keeps its indices consistent: a shift by one opens a gap that is filled at that index after growing by one, or closes one before truncating by one, and a split partitions entries into [:k] / [k+1:] with entry k moving up and children divided at k+1; (R34) rotations preserve the in-order sequence of the subtree they re-hang (symbolic-heap replay of every path; catches mistakes that are symmetric in both directions, which the mirror rule cannot see); (R28) Remove replaces a node by one of its children only when the other is known nil, and a node with two children takes both key and value of its in-order neighbour, which is then the node unlinked (red-black Remove, AVL remove/removeMin); (R36) B-tree descents hop through the first or last child of the node they are on (or its search result) and delete replaces an internal entry by the last entry of the right-most leaf to its left, removing exactly that entry there; (R37) a borrow/merge in rebalance addresses the parent entry between the node and the sibling it works with (left: the index leftSibling returned; right: rightSibling's index - 1), takes the sibling's adjacent end entry and deletes what it moved. Not decided: that a lookup after an arbitrary history finds the last value — the correctness of the red-black / AVL / B-tree algorithms themselves (which case fires for which shape); a recolouring mistake that keeps links, counters and mirror arms consistent is not detected."+notBehaviour,
 			c.rule("R12", ruleR12), c.rule("R11", ruleR11),
 			prefixFilter(c.rule("R10", ruleR10), "R10", "MIRROR: red-black rotations, fix-up arms, Put/lookup arms; AVL GetNode/put/remove arms", 13, "R10:trees/redblacktree.Tree.rotate", "R10:trees/redblacktree.Tree.insertCase", "R10:trees/redblacktree.Tree.deleteCase", "R10:trees/redblacktree.Tree.replaceNode", "R10:trees/redblacktree.Node.sibling", "R10:trees/redblacktree.Tree.Put", "R10:trees/redblacktree.Tree.lookup", "R10:trees/avltree.Tree.GetNode", "R10:trees/avltree.Tree.put", "R10:trees/avltree.Tree.remove"),
 			prefixFilter(c.rule("R15", ruleR15), "R15", "LINKED: LinkedHashMap table ↔ order list", 5, "R15a:maps/linkedhashmap", "R15b:maps/linkedhashmap", "R15c:maps/linkedhashmap", "R15w:maps/linkedhashmap", "R15d:maps/linkedhashmap"),
 			c.rule("R16", ruleR16), prefixFilter(c.rule("R24", ruleR24), "R24", "HASH: HashMap is the Go map", 5, "R24:maps/hashmap"), rolesFor(c, "C01"),
 			prefixFilter(c.rule("R21b", ruleR21b), "R21b", "B-tree: rebalance is keyed by the node's own key", 1, "R21b:btree.rebalance-key"),
-			prefixFilter(c.rule("R13", ruleR13), "R13", "ORDER: comparator-driven descents use one orientation and the full verdict", 10, "R13a:"), c.rule("R32", ruleR32), c.rule("R34", ruleR34), c.rule("R28", ruleR28), c.rule("R36", ruleR36))
+			prefixFilter(c.rule("R13", ruleR13), "R13", "ORDER: comparator-driven descents use one orientation and the full verdict", 10, "R13a:"), c.rule("R32", ruleR32), c.rule("R34", ruleR34), c.rule("R28", ruleR28), c.rule("R36", ruleR36), c.rule("R37", ruleR37))
 	}}
 	properties["C02"] = propDef{run: func(c *Ctx) *PropertyRun {
 		return pr("other", "Decided: (R13a) all 10 comparator-driven descents relate probe and stored key with one orientation (less → left/low, greater → right/high, equal → found); (R13b) keys are never compared with Go operators in comparator-ordered packages; (R20) Min/Max/Floor/Ceiling/Values/Keys delegate to the matching tree operation; (R10) Floor↔Ceiling, Left↔Right, Min↔Max, iterator Next↔Prev, rotations and fix-up arms are mirror images under μ. (R34) the three rotation primitives (red-black rotateLeft/rotateRight with replaceNode expanded, the AVL tree's direction-parameterised rotate in both directions) are replayed over a symbolic heap on every path: the in-order sequence of the rotated subtree is the same before and after and it has exactly one new root. Not decided: that splits/merges/borrows of the B-tree and the successor/predecessor swaps of Remove preserve the in-order sequence; sortedness of Keys() as such; B-tree per-node binary-search bounds; behaviour under a comparator that is not a strict weak order."+notBehaviour,
-			c.rule("R13", ruleR13), rolesFor(c, "C02"), c.rule("R10", ruleR10), c.rule("R11", ruleR11), c.rule("R29", ruleR29), c.rule("R34", ruleR34), c.rule("R28", ruleR28), c.rule("R36", ruleR36),
+			c.rule("R13", ruleR13), rolesFor(c, "C02"), c.rule("R10", ruleR10), c.rule("R11", ruleR11), c.rule("R29", ruleR29), c.rule("R34", ruleR34), c.rule("R28", ruleR28), c.rule("R36", ruleR36), c.rule("R37", ruleR37),
 			prefixFilter(c.rule("R21b", ruleR21b), "R21b", "B-tree: rebalance is keyed by the node's own key", 1, "R21b:btree.rebalance-key"))
 	}}
 	properties["C03"] = propDef{run: func(c *Ctx) *PropertyRun {
@@ -181,7 +181,7 @@ func init() {
 	}}
 	properties["C07"] = propDef{run: func(c *Ctx) *PropertyRun {
 		return pr("other", "Decided: (R11) parent links mirror child links — a sentence of the statement itself: every child-link store in the three trees is paired with the parent-link store on the same path; (R21) the rebalancing machinery is wired on every path: red-black Put/Remove pass insertCase1/deleteCase1, the case chains hand over without dropping out; AVL balance factors are written only by the fix/rotation family, direct link changes report 'height changed', every reported change is answered by putFix/removeFix on the frame's own link and passed up, rotations are stored back; B-tree nodes that gained an entry go to split, nodes that lost one go to rebalance (or are a lending sibling / the collapsing root), borrow and merge move children with entries; (R32) insert/delete shifts and the split partition keep their indices consistent (no entry or child lost or duplicated); (R35) no path overwrites a field with a constant and then reads it back as the value to transfer (the colour hand-over `sibling.color = parent.color; parent.color = black` in the wrong order) — zero sites expected, guarded by a positive control. Not decided: every numeric claim — comparator-call bounds, height bounds, min/max occupancy, equal leaf depth, colour invariants; these quantify over reachable shapes and no sound static argument in reach bounds them."+notBehaviour,
-			c.rule("R21", ruleR21), c.rule("R21b", ruleR21b), c.rule("R11", ruleR11), c.rule("R32", ruleR32), c.rule("R35", ruleR35), controlFor(c, "R35"))
+			c.rule("R21", ruleR21), c.rule("R21b", ruleR21b), c.rule("R11", ruleR11), c.rule("R32", ruleR32), c.rule("R35", ruleR35), c.rule("R37", ruleR37), controlFor(c, "R35"))
 	}}
 	properties["C08"] = propDef{run: func(c *Ctx) *PropertyRun {
 		return pr("other", "Decided: (R14) all 18 iterator types follow the cursor protocol: index cursors step exactly when inside the bound and saturate at n / -1, report true exactly when the new index is in 0..n-1, Begin/End store -1/n, linked cursors keep the element pointer in step, wrappers forward, tree cursors start at leftmost/rightmost and saturate at their sentinels, First ≡ Begin;Next, Last ≡ End;Prev, NextTo/PrevTo are the canonical search loop over (Index|Key, Value); (R10) Next↔Prev, First↔Last, NextTo↔PrevTo mirror images; (R11) the Parent links tree cursors climb; (R1) Index/Key/Value write nothing, movers write only the iterator; (R19b-index) the ring iterator's Value() reads the slot (start+index) % capacity — the same slot Values() lists at that position. Not decided: that the element reached at position i is Values()[i] for the other containers; B-tree climb/descend index logic; heap level-sort."+notBehaviour,
